@@ -125,16 +125,23 @@ theorem some_prefix_fails : ¬ some_prefix_full := by
 
 def decode_total : Prop := ∀ o : Op, o.decodable = true
 
-theorem decode_total_partial (o : Op) (h : o.thePin.opts.origins = []) : o.decodable = true := by
+theorem decode_total_partial (o : Op) (h : o.thePin.opts.origins = []) (hc : o.thePin.cid ≠ undefCid)
+    (hr : o.thePin.ref ≠ some undefCid) : o.decodable = true := by
   unfold Op.decodable
   rw [h]
-  rfl
+  simp [hc, hr]
 
 def originsPin : Pin := { pinCid 1 with opts := { (pinCid 1).opts with origins := [3] } }
 
 theorem decode_total_fails : ¬ decode_total := by
   intro h
   exact absurd (h (.pin originsPin)) (by decide)
+
+/-- nor does a pin whose reference is `cid.Undef` (what the first shard pin of a sharded add carried
+    before 9d8b946), nor one without a cid -/
+theorem decode_total_fails_undef :
+    (Op.pin { pinCid 1 with ref := some undefCid }).decodable = false ∧ (Op.unpin (pinCid undefCid)).decodable = false := by
+  decide
 
 /-- `caught_up_exact` without the restriction to decodable histories -/
 def caught_up_exact_full : Prop :=
